@@ -214,3 +214,13 @@ package types
 //@   ensures[C02,C11] err == nil ==> payloadOK(payload) && dispatchEffect(old(bank), val(old(transferAttr.destinationCoin.Amount)), old(transferAttr.destinationCoin.Denom), payload)
 //@   ensures[C02,C11] err == nil ==> transferAttr.destinationCoin.Denom == old(transferAttr.destinationCoin.Denom) && val(transferAttr.destinationCoin.Amount) == plOut(val(old(transferAttr.destinationCoin.Amount)), payload)
 //@   ensures[base] wrapped_n == old(wrapped_n) && wrapped_ret == old(wrapped_ret) && hook_n == old(hook_n) && hook_failed == old(hook_failed) && adapt_err == old(adapt_err) && adapt_op == old(adapt_op) && wrapped_bank == old(wrapped_bank) && wrapped_bank0 == old(wrapped_bank0)
+
+// ---------------------------------------------------------------------------------------------
+// Genesis (C17)
+// ---------------------------------------------------------------------------------------------
+
+// The module genesis is valid when its four component parts are.
+//@ macro genesisOK(g) = g.AdapterGenesis != nil && dispGenesisOK(g.DispatcherGenesis) && fwdGenesisOK(g.ForwarderGenesis) && execGenesisOK(g.ExecutorGenesis)
+//@ func (g *GenesisState) Validate() (err)
+//@   requires[C17] g != nil
+//@   ensures[C17] err == nil ==> genesisOK(g)
